@@ -55,6 +55,9 @@ class Cog6(ExactSolver):
 
     def _run(self, r, t):
 
+        if t >= self.tau:
+            raise ValueError('The time t must be less than tau (solution singular at t = tau)')
+
         k = self.geometry - 1
         gamma = (k + 3.) / (k + 1.)
         bigGamma = self.Gamma
